@@ -5,7 +5,8 @@ From CG3 Require Import Lib.PyZ Lib.Val Model.IndelMap Model.IndelMapFixed Spec.
 From CG3 Require Import Proofs.IndelMapProofs Proofs.IndelMapOps Proofs.IndelMapSlice Proofs.IndelMapIndex
                         Proofs.IndelMapMain Proofs.IndelMapBounded Proofs.IndelMapFixedProofs Proofs.IndelMapShared
                         Proofs.IndelMapJoin Proofs.IndelMapMerge Proofs.IndelMapGenEq Proofs.IndelMapGenMergeEq
-                        Proofs.IndelMapGenLoopEq Proofs.IndelMapGenCoordsEq Proofs.IndelMapGenJoinEq.
+                        Proofs.IndelMapGenLoopEq Proofs.IndelMapGenCoordsEq Proofs.IndelMapGenJoinEq Proofs.IndelMapGenSeqMapEq.
+From CG3 Require Import Model.FeatureMap Model.FeatureMapPrims.
 From CG3gen Require Import IndelMapGen.
 Import G.
 
@@ -134,3 +135,21 @@ Proof. intros H. rewrite from_aligned_segments_eq. now apply from_aligned_segmen
 
 Lemma gen_gap_coords_to_map_spec k : g_gap_coords_to_map (gap_insertions k) (count_res k) = Ok (from_mask k).
 Proof. rewrite gap_coords_to_map_eq. apply gap_coords_to_map_spec. Qed.
+
+(** ** [make_seq_feature_map] *)
+
+Definition seq_image (m : imap) (se : Z * Z) : fspan :=
+  mk_span (residues (firstn (Z.to_nat (fst se)) (abs m))) (residues (firstn (Z.to_nat (snd se)) (abs m))) false.
+
+Lemma make_seq_feature_map_spec m afm : WF m ->
+  Forall (fun se : Z * Z => 0 <= fst se <= len m /\ 0 <= snd se <= len m) (real_spans afm) ->
+  make_seq_feature_map m afm = Ok (mk_fmap (map (seq_image m) (real_spans afm)) (parent_length m)).
+Proof.
+  intros Hwf HF. unfold make_seq_feature_map. rewrite (make_seq_coords_spec m _ Hwf HF). cbn [bind].
+  rewrite map_map. reflexivity.
+Qed.
+
+Lemma gen_make_seq_feature_map_spec m afm : WF m ->
+  Forall (fun se : Z * Z => 0 <= fst se <= len m /\ 0 <= snd se <= len m) (real_spans afm) ->
+  g_make_seq_feature_map m afm = Ok (mk_fmap (map (seq_image m) (real_spans afm)) (parent_length m)).
+Proof. intros Hwf HF. rewrite make_seq_feature_map_eq. now apply make_seq_feature_map_spec. Qed.
